@@ -431,6 +431,10 @@ class MinMaxAggregator:
             rest_vars.update(inside_variables.intersection(collect_ast(rule.priority, "Variable")))
             for t in rule.terms:
                 rest_vars.update(inside_variables.intersection(collect_ast(t, "Variable")))
+        rule_globals = global_vars_inside_body(rule.body)
+        for blit in lits_with_vars:
+            if any(var in rule_globals and var not in rest_vars for var in collect_ast(blit, "Variable")):
+                return [rule]  # a variable bound by a literal that stays behind would become local in the chain rules
         # variables that are used inside but also outside of the aggregate
         rest_vars_sorted: list[AST] = sorted(rest_vars)
         if {NEXT.name, PREV.name}.intersection(var.name for var in collect_ast(rule, "Variable")):
